@@ -797,13 +797,16 @@ func (em *emitter) emitSelector(v *ast.Selector, reg int8, dstType reflect.Type)
 		field, _ = typ.FieldByName(v.Ident)
 	}
 	index := em.fb.makeFieldIndex(field.Index)
+	// The Field instruction panics if a pointer in the path of the field is
+	// nil.
+	pos := v.Pos()
 	if canEmitDirectly(field.Type.Kind(), dstType.Kind()) {
-		em.fb.emitField(exprReg, index, reg, dstType.Kind())
+		em.fb.emitField(exprReg, index, reg, dstType.Kind(), pos)
 		return
 	}
 	// TODO: add enter/exit stack method calls.
 	tmp := em.fb.newRegister(field.Type.Kind())
-	em.fb.emitField(exprReg, index, tmp, field.Type.Kind())
+	em.fb.emitField(exprReg, index, tmp, field.Type.Kind(), pos)
 	em.changeRegister(false, tmp, reg, field.Type, dstType)
 
 }
@@ -910,6 +913,9 @@ func (em *emitter) emitUnaryOp(expr *ast.UnaryOperator, reg int8, regType reflec
 	// *operand
 	case ast.OperatorPointer:
 		exprReg := em.emitExpr(operand, operandType)
+		// The instruction that loads the pointed value panics if the pointer
+		// is nil.
+		em.fb.addPosAndPath(expr.Pos())
 		if canEmitDirectly(exprType.Kind(), regType.Kind()) {
 			em.changeRegister(false, -exprReg, reg, operandType.Elem(), regType)
 			return
@@ -949,6 +955,7 @@ func (em *emitter) emitUnaryOp(expr *ast.UnaryOperator, reg int8, regType reflec
 			pointedElemType := regType.Elem()
 			pointer := em.emitExpr(operand, pointedElemType)
 			dst := em.fb.newRegister(pointedElemType.Kind())
+			em.fb.addPosAndPath(operand.Pos())
 			em.changeRegister(false, -pointer, dst, pointedElemType, pointedElemType)
 			em.fb.exitStack()
 			// The pointer is valid, so &*a is equivalent to a.
